@@ -111,6 +111,7 @@ def check(ctx):
             ctx.violation('C15.S1', inst, r['site'], detail + ' -- a refused request must leave every %s unchanged' % ', '.join(kinds), key=key)
         ctx.sample({'rule': 'C15.S1', 'entry': e, 'paths': npaths, 'raise_paths': nraise, 'refusal_sites': len(reps), 'clean': clean})
     ctx.floor('C15.S1', 'refusing paths analysed', total_raise, 30)
+    ctx.sub(plain_containers)
     ctx.sub(s2_tables)
 
 
@@ -143,3 +144,26 @@ def s2_tables(ctx):
                                 'writes: %s' % ws[:3], key='C15.S3|%s|%s' % (qn, name))
             ctx.sample({'rule': 'C15.S2', 'entry': qn, 'invalid_class': name, 'expected': exp, 'outcomes': sorted({p.describe()[-40:] for p in ps})[:3]})
     ctx.floor('C15.S2', 'invalid request classes tabled', n, 25)
+
+
+def plain_containers(ctx):
+    """A read of a defaultdict inserts the key: protected tables must be plain containers, otherwise a refused lookup already changed them."""
+    import ast
+    M = ctx.M
+    for cname, fields in (('SimulatedBroker', ('open_orders', 'portfolios', 'cash_balances')), ('PositionHandler', ('positions',)), ('Portfolio', ('history',))):
+        c = ctx.cls(cname)
+        for f in fields:
+            ts = set()
+            for k in c.mro():
+                ts |= M.field_of(k, f)
+            bad = [t for t in ts if 'defaultdict' in t or 'Counter' in t]
+            ctx.require(not bad, 'C15.S3', '%s.%s is a plain container (no insert-on-read)' % (cname, f), c.path, 'type %s: a lookup of an unknown key inserts it before any guard can refuse' % bad,
+                        key='C15.S3|plain|%s.%s' % (cname, f))
+    for fn in M.all_funcs():
+        if fn.cls is None or fn.cls.name not in ('SimulatedBroker', 'Portfolio', 'PositionHandler'):
+            continue
+        for n in ast.walk(fn.node):
+            if isinstance(n, ast.Call):
+                name = M.ext_name(fn.mod, n.func)
+                if name in ('collections.defaultdict', 'collections.Counter'):
+                    ctx.violation('C15.S3', 'broker/portfolio state uses plain containers (no insert-on-read)', fn.site(n), '%s in %s' % (name, fn.qn), key='C15.S3|defaultdict|%s' % fn.qn)
